@@ -52,7 +52,7 @@ CHECKS.update({
    text="Random symbolic DAGs (all leaf kinds, Arc sharing, base/extension, depth up to 10^4) are compiled with the repo's symbolic compiler and compared node by node with a reference evaluator; generated-program AIRs and the repo's own AIRs go through eval_folded_circuit and are compared with VerifierConstraintFolderWithLookups on the same openings, alpha, selectors and lookup challenges. 1.16M evaluations per quick run. ProgramAir includes extension assertions made only of lifted base expressions (several per program).",
    note="Trusted: p3-air symbolic types, p3-lookup native folder. One listed finding (fold order when an AIR emits extension constraints before base constraints).", ref="DESIGN.md §3 C13", engine="E4"),
  "C16": dict(cat="fault_enumeration", tech="property-based fault injection (proptest): JSON-path edits of proof metadata + postcard/JSON round trips, native verifier verdicts",
-   text="BatchStarkProofs of random circuits (honest traces and natively rejected forged traces) get 1-2 edits of self-declared metadata (every scalar leaf outside the inner proof, table-list drop/duplicate/swap); an invalid-trace proof must stay rejected, changed field parameters must be rejected, verification must not panic, and postcard/JSON round trips must preserve the verdict. A second sub-check empties the lookup contexts (not serialised) of table subsets, prover-side before proving an invalid trace or in the finished in-memory proof: the proof must be rejected in memory and the verdict must survive postcard/JSON round trips.",
+   text="BatchStarkProofs of random circuits (honest traces and natively rejected forged traces) get 1-2 edits of self-declared metadata (every scalar leaf outside the inner proof, table-list drop/duplicate/swap); an invalid-trace proof must stay rejected, changed field parameters must be rejected, verification must not panic, and postcard/JSON round trips must preserve the verdict. A second sub-check empties the lookup contexts (not serialised) of table subsets, prover-side before proving an invalid trace or in the finished in-memory proof: the proof must be rejected in memory and the verdict must survive postcard/JSON round trips. A third sub-check drives VerifierManifest::matches (the caller-side statement of the expected table set) with generated manifests and real proofs whose metadata starts equal and receives 0-3 edits (field parameters, ALU variant, drop/append/insert/duplicate/swap of table entries, op type / variant / public-value length), against a field-by-field reference comparison (20k cases per quick run).",
    note="verify_all_tables takes the preprocessed commitment from the proof; binding to a circuit is the caller's comparison (not claimed).", ref="DESIGN.md §3 C16", engine="E2+E3"),
 })
 
